@@ -238,6 +238,22 @@ theorem amplitude_constraint_simplex (n : Nat) (params : List Rat) (mask : Optio
 example : handleConstraint 2 [1/2, 1/2, 3, 5] none
     = some ⟨[true, true, true, true], 2, 0, [1/2, 1/2, 3, 5]⟩ := by decide +kernel
 
+/-- error branches of `_handle_amplitude_constraint`: it raises `ValueError` EXACTLY when the mask does not match the
+    parameter vector (or that vector does not have `2n` entries), the fixed amplitudes sum to more than one, or no
+    amplitude is free and the fixed ones miss one by more than `np.allclose`'s `1e-6 + 1e-5`.  In particular a single
+    free amplitude is never refused (it is determined so that the sum is one). -/
+theorem amplitude_constraint_refuses_iff (n : Nat) (params : List Rat) (mask : Option (List Bool)) :
+    handleConstraint n params mask = none ↔
+      ((fixedOf params mask).length ≠ params.length ∨ params.length ≠ 2 * n
+        ∨ 1 < ampSum n params (fixedOf params mask)
+        ∨ (countTrue n ((fixedOf params mask).map (!·)) = 0
+            ∧ (11 : Rat) / 1000000 < |ampSum n params (fixedOf params mask) - 1|)) :=
+  handleConstraint_none_iff n params mask
+
+example : handleConstraint 2 [1/2, 1/4, 3, 5] (some [true, true, false, false]) = none
+    ∧ handleConstraint 2 [3/4, 1/2, 3, 5] (some [true, true, false, false]) = none
+    ∧ handleConstraint 2 [1/2, 1/4, 3, 5] (some [true, false, false]) = none := by decide +kernel
+
 /-! ## What `_exponential_mle_optimize` hands to the optimiser and reports back -/
 
 /-- `reported_parameters_spec`: whenever `_handle_amplitude_constraint` accepts, for every answer `x` of the optimiser
@@ -356,6 +372,14 @@ example : extract true false
     [⟨0, 10, 1/4, [0, 1, 2], some (1/4)⟩, ⟨1, 8, 1/2, [2, 3, 5], some (1/2)⟩, ⟨0, 10, 1/4, [3, 4], some (1/4)⟩,
      ⟨0, 10, 1/4, [5], some (1/4)⟩, ⟨1, 8, 1/2, [6, 7], some (1/2)⟩]
     = some ([⟨1/4, 1/4, 5/2, 1/4⟩, ⟨3/2, 1/2, 4, 1/2⟩], true) := by decide +kernel
+
+-- the hypothesis `Consistent` of `extraction_spec` is NECESSARY (kernel-checked witness): were two tracks of one
+-- kymograph to disagree on its geometry, the rows would carry the geometry of the group's first track
+example : ∃ rows rem, extract false false
+      [⟨0, 10, 1/4, [1, 2], some (1/4)⟩, ⟨0, 8, 1/2, [1, 3], some (1/2)⟩] = some (rows, rem)
+    ∧ ¬ (rows.map some).Perm (([⟨0, 10, 1/4, [1, 2], some (1/4)⟩, ⟨0, 8, 1/2, [1, 3], some (1/2)⟩].filter
+          (keep false)).map specRow?) :=
+  ⟨[⟨1/4, 1/4, 5/2, 1/4⟩, ⟨1, 1/2, 5/2, 1/4⟩], false, by decide +kernel, by decide +kernel⟩
 
 /-- the extraction refuses (the code raises `RuntimeError`) exactly when some track that would contribute
     a row carries no minimum observable duration -/
